@@ -34,7 +34,7 @@ func coreC17(tier string) []RunSpec {
 var c17Fees = []uint{0, 100, 1000}
 
 // wallet-level step kinds
-var wwKinds = []string{"mint", "send", "receive", "sendlocked", "melt", "resolvemelt", "reclaim", "mintswap", "rotate", "remelt", "clock"}
+var wwKinds = []string{"mint", "send", "receive", "sendlocked", "melt", "resolvemelt", "reclaim", "mintswap", "rotate", "remelt", "clock", "reload"}
 
 func (ww *WW) Step(kind int) {
 	switch wwKinds[kind] {
@@ -60,6 +60,8 @@ func (ww *WW) Step(kind int) {
 		ww.StepRemelt()
 	case "clock":
 		ww.StepClock()
+	case "reload":
+		ww.StepReload()
 	}
 }
 
@@ -140,8 +142,8 @@ func runC17(rc *RunCtx) {
 		rc.Nontrivial = true
 		return
 	}
-	// weights:       mint send receive sendlocked melt resolvemelt reclaim mintswap rotate remelt clock
-	weights := []int{2, 5, 5, 2, 3, 2, 2, 1, 1, 2, 1}
+	// weights:       mint send receive sendlocked melt resolvemelt reclaim mintswap rotate remelt clock reload
+	weights := []int{2, 5, 5, 2, 3, 2, 2, 1, 1, 2, 1, 2}
 	rc.StepLoop(4, 18, func(i int) {
 		ww.step = i
 		ww.Step(T.Pick("step.kind", weights...))
